@@ -244,7 +244,7 @@ pub fn judge_c04(pool: &Pool, base: &PFile, f: &[u8], res: &DecRes, sh: &Shared,
                 let need = a.recs.get(j).map(|r| r.1 - 0).unwrap_or(usize::MAX);
                 let src = &(*src + shift);
                 if *src < need { return Err(format!("a byte of chunk {} was written when only {} ciphertext bytes had been delivered (record {} ends at {})", j, src, j, need)); }
-                if let Some(fi) = fault_at { if fault.map(|f| f.kind != FKind::Interrupted).unwrap_or(false) { return Err(format!("plaintext written (event {}) after an I/O fault had been reported (event {})", i, fi)); } }
+                if let Some(fi) = fault_at { if fault.map(|f| f.kind != FKind::Interrupted && f.kind != FKind::InterruptedStorm).unwrap_or(false) { return Err(format!("plaintext written (event {}) after an I/O fault had been reported (event {})", i, fi)); } }
             }
             Ev::X(_) => { if fault_at.is_none() { fault_at = Some(i); } }
             _ => {}
